@@ -20,11 +20,11 @@ Print Assumptions C19_limits_documented.
 
 (* every request on a state reached by any program of requests and engine flushes: turned away
    by the transport / the limits / the handle lookup with an error and no change, or answered as
-   the embedded specification answers it on the history acknowledged so far (guards: sequence
-   numbers not exhausted; Compact(force), see C19_compact_force_refuted) *)
+   the embedded specification answers it on the history acknowledged so far (guard: sequence
+   numbers not exhausted) *)
 Theorem C19_simulation : forall L c p prog q,
   let ss := fst (srun L (sinit c p) prog) in
-  (MaxSeq <=? wal_next (s_eng ss)) = false -> q <> QCompact true ->
+  (MaxSeq <=? wal_next (s_eng ss)) = false ->
   match gate L ss q with
   | Some e => service_step L ss q = (ss, PErr e)
   | None =>
@@ -38,7 +38,6 @@ Print Assumptions C19_simulation.
 (* the same step over any state whose engine ran a program without losing its log *)
 Theorem C19_simulation_step : forall L c tr ss q,
   s_eng ss = run c tr -> lost_log (run c tr) = false -> (MaxSeq <=? wal_next (s_eng ss)) = false ->
-  q <> QCompact true ->
   match gate L ss q with
   | Some e => service_step L ss q = (ss, PErr e)
   | None =>
@@ -109,21 +108,17 @@ Theorem C19_scan_semantics_service : forall L c p prog buf o,
 Proof. exact ServiceProofs.scan_semantics_service. Qed.
 Print Assumptions C19_scan_semantics_service.
 
-(* deviations of the code from the property, with witnesses *)
-Theorem C19_compact_force_refuted :
-  let ss1 := fst (service_step code_limits ss0 (QCompact true)) in
-  gate code_limits ss0 (QCompact true) = None /\
-  snd (service_step code_limits ss0 (QCompact true)) = POk /\
-  snd (service_step code_limits ss1 (QScan (mkScan [] [] [] [] 0))) = PRows [(marker_key, marker_val)] /\
-  snd (service_step code_limits ss1 (QGet marker_key)) = PValue (Some marker_val) /\
-  embedded_step (abs (mkCfg 1000 10) [] ss0) (QCompact true) = (abs (mkCfg 1000 10) [] ss0, POk) /\
-  abs (mkCfg 1000 10) (eops code_limits ss0 (SReq (QCompact true))) ss1 <> abs (mkCfg 1000 10) [] ss0.
-Proof. exact ServiceProofs.compact_force_refuted. Qed.
-Print Assumptions C19_compact_force_refuted.
+(* the transport of the server as cmd/kevo builds it admits every single write the limits admit *)
+Theorem C19_single_write_fits : forall k v s n,
+  valid_key code_limits k = true -> valid_val code_limits v = true ->
+  fits code_limits (QPut k v s) = true /\ fits code_limits (QTxPut (HId n) k v) = true.
+Proof. exact ServiceProofs.single_write_fits. Qed.
+Print Assumptions C19_single_write_fits.
 
-Theorem C19_transport_refuted : exists k v,
-  within_limits code_limits (QPut k v false) = true /\
-  (forall ss, service_step code_limits ss (QPut k v false) = (ss, PErr EMsg)) /\
-  (forall a, embedded_step a (QPut k v false) = (a_write a [WPut k v], POk)).
-Proof. exact ServiceProofs.transport_refuted. Qed.
-Print Assumptions C19_transport_refuted.
+(* Compact, with or without force, changes nothing the embedded specification can see *)
+Theorem C19_compact_keeps_data : forall L c tr ss f,
+  s_eng ss = run c tr -> any_open ss = false -> fits L (QCompact f) = true ->
+  snd (service_step L ss (QCompact f)) = POk /\
+  abs c (tr ++ eops L ss (SReq (QCompact f))) (fst (service_step L ss (QCompact f))) = abs c tr ss.
+Proof. exact ServiceProofs.compact_keeps_data. Qed.
+Print Assumptions C19_compact_keeps_data.
